@@ -4,6 +4,7 @@ A tree is a nested tuple/list ``(op, *params_and_children)``; JSON round-trips i
 consumer accepts lists as well as tuples.  Sorts: ("bv", n), ("bool",), ("fp", "FLOAT"|"DOUBLE"),
 ("str",).
 
+Any:   ("anno", spec, child)  -- child carrying an annotation (spec is interpreted by the builder's factory); same value
 BV:    ("var", name, n) ("const", v, n)
        bvadd bvsub bvmul bvudiv bvurem bvsdiv bvsrem bvand bvor bvxor bvshl bvlshr bvashr rotl rotr : (op, a, b)
        bvneg bvnot bswap : (op, a)       ("concat", a, b, ...)  ("extract", hi, lo, a)
@@ -32,6 +33,8 @@ def T(x):
 
 
 def is_bool(t) -> bool:
+    if t[0] == "anno":
+        return is_bool(t[2])
     return t[0] in ("bvar", "bconst", "and", "or", "not", "beq", "bne", "bite") or t[0] in BV_CMP
 
 
@@ -49,6 +52,8 @@ def width(t) -> int:
         return t[1] + width(t[2])
     if op == "ite":
         return width(t[2])
+    if op == "anno":
+        return width(t[2])
     raise ValueError(f"width of {op}")
 
 
@@ -58,7 +63,7 @@ def children(t):
         return ()
     if op == "extract":
         return (t[3],)
-    if op in ("zext", "sext"):
+    if op in ("zext", "sext", "anno"):
         return (t[2],)
     return tuple(t[1:])
 
@@ -69,7 +74,7 @@ def with_children(t, ch):
         return t
     if op == "extract":
         return (op, t[1], t[2], ch[0])
-    if op in ("zext", "sext"):
+    if op in ("zext", "sext", "anno"):
         return (op, t[1], ch[0])
     return (op, *ch)
 
@@ -130,6 +135,8 @@ def pretty(t) -> str:
         return f"{pretty(t[3])}[{t[1]}:{t[2]}]"
     if op in ("zext", "sext"):
         return f"{op}({t[1]},{pretty(t[2])})"
+    if op == "anno":
+        return f"{pretty(t[2])}@{t[1]}"
     return f"{op}({','.join(pretty(c) for c in t[1:])})"
 
 
@@ -272,6 +279,8 @@ def ev(t, env):
         return ev(t[1], env) == ev(t[2], env)
     if op == "bne":
         return ev(t[1], env) != ev(t[2], env)
+    if op == "anno":
+        return ev(t[2], env)
     raise ValueError(f"ev: {op}")
 
 
